@@ -67,9 +67,17 @@ def _twodep(ctx, p, rng):
     x = gen.series_data(rng, D, P, (3,), 'R', 'random', False, 0.4)
     if f.peak(x) > PEAK:
         ctx.skip('out_of_domain:ill-conditioned (intermediate coefficients > 1e6 cancel in the output)'); return
-    how = int(rng.integers(3))
+    how = int(rng.integers(6))
 
     def f2(y1, xx):
+        # 3, 4, 5: the second dependent is a VIEW of the first (an overlapping slice, the reversed vector, the value itself): the
+        # seeds of the two dependents meet in the same adjoint memory
+        if how == 3:
+            return y1[1:]
+        if how == 4:
+            return y1[::-1]
+        if how == 5:
+            return y1
         if how == 0:
             return algopy.sin(y1) * xx
         if how == 1:
@@ -88,8 +96,9 @@ def _twodep(ctx, p, rng):
         fx = algopy.Function(UTPM(x.copy()))
         y1 = f(fx); y2 = f2(y1, fx)
         cg.trace_off()
-        cg.independentFunctionList = [fx]; cg.dependentFunctionList = [y1, y2] if rng.random() < 0.5 else [y2, y1]
-        order = [d is y1 for d in cg.dependentFunctionList]
+        swapped = bool(rng.random() < 0.5)
+        cg.independentFunctionList = [fx]; cg.dependentFunctionList = [y2, y1] if swapped else [y1, y2]
+        order = [False, True] if swapped else [True, False]          # which position holds y1 (y2 may be the very same node)
     except Exception:
         ctx.skip('not-traceable:twodep'); return
     yb1 = rng.normal(size=y1.x.data.shape); yb2 = rng.normal(size=y2.x.data.shape)
